@@ -68,6 +68,7 @@ var sigArgShapes = []func() Args{
 	func() Args { return Args{Values: []Arg{aggE(v(2))}} },
 	func() Args { return Args{Values: []Arg{aggE(v(ptr1))}} },
 	func() Args { return Args{Values: []Arg{agg(aggE(v(ptr2)))}} },
+	func() Args { return Args{Values: []Arg{v(0)}} },
 	func() Args { return Args{Values: []Arg{v(1)}, Processed: []string{"true"}} },
 	func() Args { return Args{Values: []Arg{v(2)}, Processed: []string{"true"}} },
 	func() Args { return Args{Values: []Arg{v(ptr1)}, Processed: []string{"*T(0xc000012340)"}} },
@@ -606,6 +607,117 @@ func runAggCheck(t *testing.T, prop string, oracle aggOracle, rule string, nontr
 		}
 	})
 	_ = uni
+	runAggLarge(r, prop, u, oracle)
+}
+
+// runAggLarge: structured large snapshots (tens to thousands of goroutines, many
+// buckets): cycles, strides, blocks and "X X <many others> X" patterns over the
+// universe; replaces "randomly up to thousands of goroutines".
+func runAggLarge(r *h.Run, prop string, u []sigAttr, oracle aggOracle) {
+	m := len(u)
+	type pattern struct {
+		name string
+		seq  []int
+	}
+	var pats []pattern
+	mk := func(name string, n int, f func(i int) int) {
+		p := pattern{name: name}
+		for i := 0; i < n; i++ {
+			p.seq = append(p.seq, ((f(i)%m)+m)%m)
+		}
+		pats = append(pats, p)
+	}
+	for _, n := range []int{12, 40, 300, 2000} {
+		n := n
+		mk(fmt.Sprintf("cycle-%d", n), n, func(i int) int { return i })
+		mk(fmt.Sprintf("stride7-%d", n), n, func(i int) int { return i * 7 })
+		mk(fmt.Sprintf("blocks3-%d", n), n, func(i int) int { return i / 3 })
+		mk(fmt.Sprintf("reverse-%d", n), n, func(i int) int { return n - i })
+	}
+	for x := 0; x < m; x += 5 {
+		x := x
+		for _, gap := range []int{7, 8, 9, 16, 17, 33} {
+			gap := gap
+			mk(fmt.Sprintf("x%d-x-%d-others-x", x, gap), gap+4, func(i int) int {
+				if i < 2 || i >= gap+2 {
+					return x
+				}
+				return x + i
+			})
+		}
+	}
+	if r.Thorough() {
+		mk("cycle-10000", 10000, func(i int) int { return i })
+	}
+	for pi, p := range pats {
+		if !r.MineIdx(pi) || r.Expired() {
+			continue
+		}
+		for _, firstPos := range []int{0, len(p.seq) - 1} {
+			key := fmt.Sprintf("large %s first=%d", p.name, firstPos)
+			build := func() *Snapshot {
+				s := &Snapshot{}
+				for i, ui := range p.seq {
+					g := u[ui].build(false)
+					g.ID = 100000 - i*3
+					g.First = i == firstPos
+					s.Goroutines = append(s.Goroutines, g)
+				}
+				return s
+			}
+			c := &aggCase{u: u}
+			outcome := ""
+			for level := ExactFlags; level <= AnyValue; level++ {
+				lv := level
+				r.Check(func() *h.Viol {
+					s := build()
+					a, pn := safeAggregate(s, lv)
+					if pn != "" {
+						return &h.Viol{Fingerprint: prop + "/panic-in-Aggregate", Summary: "Aggregate panicked on " + key + ": " + firstLine(pn), Key: key + " " + levelNames[lv], Kind: "agg-large"}
+					}
+					c.aggs = [4]*Aggregated{}
+					// positions for the cached reference keys do not apply here
+					c.idx, c.perm = nil, nil
+					vv := oracleLarge(prop, c, s, lv, a, oracle)
+					if vv != nil {
+						vv.Key = key + " " + levelNames[lv]
+						vv.Kind = "agg-large"
+						vv.Summary = key + ": " + vv.Summary
+					}
+					if vv == nil {
+						outcome += fmt.Sprint(len(a.Buckets), ";")
+					}
+					return vv
+				})
+			}
+			r.Record(key, true, outcome)
+		}
+	}
+	r.Sample(map[string]any{"large_patterns": len(pats), "sizes": "12..2000 (thorough 10000) goroutines, up to |U| buckets"})
+}
+
+// oracleLarge runs the property's oracle on a large snapshot; C05's cached keys are
+// bypassed by computing the reference keys directly.
+func oracleLarge(prop string, c *aggCase, s *Snapshot, level Similarity, a *Aggregated, oracle aggOracle) *h.Viol {
+	if prop != "C05" {
+		return oracle(c, s, level, a)
+	}
+	byKey := map[string][]int{}
+	for _, g := range s.Goroutines {
+		k := refKey(g, level)
+		byKey[k] = append(byKey[k], g.ID)
+	}
+	var exp, got [][]int
+	for _, ids := range byKey {
+		exp = append(exp, ids)
+	}
+	for _, b := range a.Buckets {
+		got = append(got, b.IDs)
+	}
+	if ek, gk := partitionKey(exp), partitionKey(got); ek != gk {
+		return &h.Viol{Fingerprint: "C05/partition-differs-large:" + levelNames[level], Summary: fmt.Sprintf("the partition at %s differs from the reference partition (%d vs %d classes)", levelNames[level], len(got), len(exp))}
+	}
+	return nil
 }
 
 func firstLine(s string) string {
